@@ -42,4 +42,209 @@ theorem str_empty : Go.str "" = [] := rfl
 theorem decide_eq_nil_eq_isEmpty (v : Str) : decide (v = Go.str "") = v.isEmpty := by
   cases v <;> simp [str_empty]
 
+theorem getPrimitive_float64_eq (o : List (Str × JVal)) (k : Str) :
+    GenObject.getPrimitive_float64 o k =
+      (match Obj.getAny o k with
+       | .error e => .error e
+       | .ok (.num bits) => .ok bits
+       | .ok _ => .error .wrong) := by
+  unfold GenObject.getPrimitive_float64 Obj.getAny Go.mapLookup
+  cases h : Obj.lookup o k with
+  | none => rfl
+  | some v => cases v <;> rfl
+
+/-! ### `GetNumber` on one bit pattern -/
+
+/-- the statement about one bit pattern -/
+def NumCore (bits : Nat) : Prop :=
+  (if Go.f64ne bits (Go.f64trunc bits) then (.error Obj.Err.wrong : Obj.R Nat)
+   else if (Go.f64ltNat bits 0 || Go.f64geNat bits 18446744073709551616) then .error Obj.Err.wrong
+   else .ok (Go.f64toUint64 bits)) =
+  (match F64.toNat? bits with
+   | some n => if n < 2 ^ 64 then .ok n else .error .wrong
+   | none => .error .wrong)
+
+theorem f64_decomp (bits : Nat) (h : bits < 2 ^ 64) :
+    bits = F64.sign bits * 2 ^ 63 + F64.expo bits * 2 ^ 52 + F64.mant bits ∧
+    F64.sign bits < 2 ∧ F64.expo bits < 2048 ∧ F64.mant bits < 2 ^ 52 := by
+  unfold F64.sign F64.expo F64.mant
+  omega
+
+theorem core_2047 (bits : Nat) (h : bits < 2 ^ 64) (hex : F64.expo bits = 2047) : NumCore bits := by
+  obtain ⟨hd, hs, _, hm⟩ := f64_decomp bits h
+  unfold NumCore Go.f64ne Go.f64trunc Go.f64ltNat Go.f64geNat F64.toNat? F64.dyadic F64.isNaN F64.isInf
+  simp only [hex]
+  by_cases hm0 : F64.mant bits = 0
+  · have : F64.sign bits = 0 ∨ F64.sign bits = 1 := by omega
+    have hb : ¬ (bits % 2 ^ 63 = 0) := by omega
+    rcases this with hs | hs <;> simp [hm0, hs, hb]
+  · simp [hm0]
+
+
+theorem sign_signbit (s : Nat) (hs : s < 2) :
+    F64.sign (s * 2 ^ 63) = s ∧ F64.expo (s * 2 ^ 63) = 0 ∧ F64.mant (s * 2 ^ 63) = 0 := by
+  unfold F64.sign F64.expo F64.mant
+  omega
+
+theorem core_zero (bits : Nat) (h : bits < 2 ^ 64) (hex : F64.expo bits = 0)
+    (hm0 : F64.mant bits = 0) : NumCore bits := by
+  obtain ⟨hd, hs, _, hm⟩ := f64_decomp bits h
+  obtain ⟨h1, h2, h3⟩ := sign_signbit _ hs
+  have hb : bits % 2 ^ 63 = 0 := by omega
+  have hb' : F64.sign bits * 2 ^ 63 % 2 ^ 63 = 0 := by omega
+  unfold NumCore Go.f64toUint64 Go.f64ne Go.f64trunc Go.f64ltNat Go.f64geNat F64.toNat? F64.dyadic F64.isNaN F64.isInf
+  simp [hex, hm0, h2, h3, hb, hb']
+
+theorem lt_pow (m k : Nat) (hm : m < 2 ^ 52) (hk : 52 ≤ k) : m < 2 ^ k :=
+  Nat.lt_of_lt_of_le hm (Nat.pow_le_pow_right (by decide) hk)
+
+theorem core_small (bits : Nat) (h : bits < 2 ^ 64) (hex : F64.expo bits < 1023)
+    (hnz : ¬ (F64.expo bits = 0 ∧ F64.mant bits = 0)) : NumCore bits := by
+  obtain ⟨hd, hs, _, hm⟩ := f64_decomp bits h
+  obtain ⟨h1, h2, h3⟩ := sign_signbit _ hs
+  have hb : ¬ (bits % 2 ^ 63 = 0) := by omega
+  have hne : bits ≠ F64.sign bits * 2 ^ 63 := by omega
+  have ht : Go.f64trunc bits = F64.sign bits * 2 ^ 63 := by
+    unfold Go.f64trunc
+    simp only [ge_iff_le]
+    rw [if_neg (by omega), if_pos hex]
+  have hne1 : Go.f64ne bits (Go.f64trunc bits) = true := by
+    rw [ht]
+    unfold Go.f64ne F64.isNaN
+    simp [h2, hb, hne]
+  have hr : F64.toNat? bits = none := by
+    unfold F64.toNat? F64.dyadic
+    by_cases h0 : F64.expo bits = 0
+    · have : F64.mant bits ≠ 0 := fun hh => hnz ⟨h0, hh⟩
+      simp [-Nat.reducePow, h0, this, Nat.mod_eq_of_lt (lt_pow _ 1074 hm (by decide))]
+    · have hlt : 2 ^ 52 + F64.mant bits < 2 ^ (1075 - F64.expo bits) := by
+        have : 2 ^ 53 ≤ 2 ^ (1075 - F64.expo bits) := Nat.pow_le_pow_right (by decide) (by omega)
+        omega
+      have e1 : (-((F64.expo bits : Int) - 1075)).toNat = 1075 - F64.expo bits := by omega
+      have e2 : ¬ ((F64.expo bits : Int) - 1075 ≥ 0) := by omega
+      have e3 : F64.expo bits ≠ 2047 := by omega
+      have e4 : 2 ^ 52 + F64.mant bits ≠ 0 := by omega
+      simp only [h0, e3, if_false, e4, e2, e1, Nat.mod_eq_of_lt hlt]
+      simp
+  unfold NumCore
+  rw [hne1, hr]
+  rfl
+
+
+theorem dyadic_normal (bits : Nat) (h0 : F64.expo bits ≠ 0) (h1 : F64.expo bits ≠ 2047) :
+    F64.dyadic bits =
+      some (decide (F64.sign bits = 1), 2 ^ 52 + F64.mant bits, (F64.expo bits : Int) - 1075) := by
+  unfold F64.dyadic
+  rw [if_neg h1, if_neg h0]
+
+theorem core_big (bits : Nat) (h : bits < 2 ^ 64) (hex : 1075 ≤ F64.expo bits)
+    (hex' : F64.expo bits ≠ 2047) : NumCore bits := by
+  obtain ⟨hd, hs, _, hm⟩ := f64_decomp bits h
+  have hb : ¬ (bits % 2 ^ 63 = 0) := by omega
+  have ht : Go.f64trunc bits = bits := by
+    unfold Go.f64trunc
+    simp only [ge_iff_le]
+    rw [if_pos hex]
+  have hnan : F64.isNaN bits = false := by
+    unfold F64.isNaN; simp [hex']
+  have hinf : F64.isInf bits = false := by
+    unfold F64.isInf; simp [hex']
+  have hne1 : Go.f64ne bits bits = false := by
+    unfold Go.f64ne
+    simp [hnan, hb]
+  have e1 : ((F64.expo bits : Int) - 1075).toNat = F64.expo bits - 1075 := by omega
+  have e2 : ((F64.expo bits : Int) - 1075 ≥ 0) := by omega
+  have e4 : 2 ^ 52 + F64.mant bits ≠ 0 := by omega
+  have hdy := dyadic_normal bits (by omega) hex'
+  have hs' : F64.sign bits = 0 ∨ F64.sign bits = 1 := by omega
+  unfold NumCore Go.f64toUint64
+  rw [ht, hne1]
+  unfold Go.f64ltNat Go.f64geNat F64.toNat?
+  rw [hnan, hinf, hdy]
+  simp only [e1, e2, e4, if_false, if_true, Bool.false_eq_true]
+  rcases hs' with hs' | hs'
+  · simp only [hs']
+    by_cases hlt : (2 ^ 52 + F64.mant bits) * 2 ^ (F64.expo bits - 1075) < 2 ^ 64
+    · simp [hlt]
+    · simp [hlt]
+  · simp [hs']
+
+
+theorem mod_low (bits j : Nat) (hj : j ≤ 52) :
+    F64.mant bits % 2 ^ j = bits % 2 ^ j ∧ (2 ^ 52 + F64.mant bits) % 2 ^ j = bits % 2 ^ j := by
+  have hdvd : 2 ^ j ∣ 2 ^ 52 := Nat.pow_dvd_pow 2 hj
+  have h1 : F64.mant bits % 2 ^ j = bits % 2 ^ j := by
+    unfold F64.mant
+    exact Nat.mod_mod_of_dvd bits hdvd
+  refine ⟨h1, ?_⟩
+  obtain ⟨c, hc⟩ := hdvd
+  rw [hc, Nat.mul_add_mod, h1]
+
+theorem core_mid (bits : Nat) (h : bits < 2 ^ 64) (hlo : 1023 ≤ F64.expo bits)
+    (hhi : F64.expo bits < 1075) : NumCore bits := by
+  obtain ⟨hd, hs, _, hm⟩ := f64_decomp bits h
+  have hex' : F64.expo bits ≠ 2047 := by omega
+  have hb : ¬ (bits % 2 ^ 63 = 0) := by omega
+  obtain ⟨_, hmod⟩ := mod_low bits (1075 - F64.expo bits) (by omega)
+  have ht : Go.f64trunc bits = bits - bits % 2 ^ (1075 - F64.expo bits) := by
+    unfold Go.f64trunc
+    simp only [ge_iff_le]
+    rw [if_neg (by omega), if_neg (by omega)]
+  have hnan : F64.isNaN bits = false := by
+    unfold F64.isNaN; simp [hex']
+  have hinf : F64.isInf bits = false := by
+    unfold F64.isInf; simp [hex']
+  have e1 : (-((F64.expo bits : Int) - 1075)).toNat = 1075 - F64.expo bits := by omega
+  have e2 : ¬ ((F64.expo bits : Int) - 1075 ≥ 0) := by omega
+  have e4 : 2 ^ 52 + F64.mant bits ≠ 0 := by omega
+  have hdy := dyadic_normal bits (by omega) hex'
+  have hs' : F64.sign bits = 0 ∨ F64.sign bits = 1 := by omega
+  have hr : F64.toNat? bits =
+      if F64.sign bits = 1 then none
+      else if bits % 2 ^ (1075 - F64.expo bits) = 0 then
+        some ((2 ^ 52 + F64.mant bits) / 2 ^ (1075 - F64.expo bits)) else none := by
+    unfold F64.toNat?
+    rw [hdy]
+    simp only [e1, e2, e4, if_false, hmod, decide_eq_true_eq]
+  by_cases hr0 : bits % 2 ^ (1075 - F64.expo bits) = 0
+  · rw [hr0, Nat.sub_zero] at ht
+    have hne1 : Go.f64ne bits bits = false := by
+      unfold Go.f64ne
+      simp [hnan, hb]
+    have hdiv : (2 ^ 52 + F64.mant bits) / 2 ^ (1075 - F64.expo bits) < 2 ^ 64 :=
+      Nat.lt_of_le_of_lt (Nat.div_le_self _ _) (by omega)
+    have hge : ¬ (2 ^ 52 + F64.mant bits ≥ 18446744073709551616 * 2 ^ (1075 - F64.expo bits)) := by
+      have : 1 ≤ 2 ^ (1075 - F64.expo bits) := Nat.pow_pos (by decide)
+      have : 18446744073709551616 * 1 ≤ 18446744073709551616 * 2 ^ (1075 - F64.expo bits) :=
+        Nat.mul_le_mul_left _ this
+      omega
+    unfold NumCore Go.f64toUint64
+    rw [ht, hne1, hr]
+    unfold Go.f64ltNat Go.f64geNat
+    rw [hnan, hinf, hdy]
+    simp only [e1, e2, e4, hge, hr0, if_false, if_true, Bool.false_eq_true]
+    rcases hs' with hs' | hs'
+    · simp [hs', hdiv]
+    · simp [hs']
+  · have hne1 : Go.f64ne bits (Go.f64trunc bits) = true := by
+      rw [ht]
+      have hle : bits % 2 ^ (1075 - F64.expo bits) ≤ bits := Nat.mod_le _ _
+      have : bits ≠ bits - bits % 2 ^ (1075 - F64.expo bits) := by omega
+      unfold Go.f64ne
+      simp [hnan, hb, this]
+    unfold NumCore
+    rw [hne1, hr]
+    rcases hs' with hs' | hs' <;> simp [hs', hr0]
+
+theorem numCore (bits : Nat) (h : bits < 2 ^ 64) : NumCore bits := by
+  by_cases h1 : F64.expo bits = 2047
+  · exact core_2047 bits h h1
+  by_cases h2 : 1075 ≤ F64.expo bits
+  · exact core_big bits h h2 h1
+  by_cases h3 : 1023 ≤ F64.expo bits
+  · exact core_mid bits h h3 (by omega)
+  by_cases h4 : F64.expo bits = 0 ∧ F64.mant bits = 0
+  · exact core_zero bits h h4.1 h4.2
+  · exact core_small bits h (by omega) h4
+
 end Gen17
